@@ -109,4 +109,13 @@ META = {
     design_ref='DESIGN.md 6/C10',
     note='Handlers are not added concurrently with the router shutting down (as the quantifier says). Probe messages time out after 700 ms.',
     technique='TLC model checking of the start-up protocol + trace validation of lifecycle programs against an abstract API spec'),
+ 'C01': dict(
+    text='Pipeline.tla models K stages connected by at-least-once topics with a finite fault budget; TLC checks NoLoss, Sound, AckAfterAccept for 3 stages x 2 messages x 2 faults '
+         'and AllArrive (everything reaches the sink once the faults stop) under fairness, and rejects ack-before-publish and drop-on-Nack. Real Routers chained by a real '
+         'GoChannel are run with scripted faults placed on the k-th handler / publisher call of each stage; the trace (source publishes, every handler and publisher call with '
+         'the settlement of the consumed message sampled inside Publish, sink receipts, quiescence) is validated by TLC: only accepted lineages may be handled or reach the sink, '
+         'nothing is given up before its output is accepted, and at quiescence every expected lineage is at the sink',
+    design_ref='DESIGN.md 6/C01',
+    note='Lineage = UUID carried through the stages (fan-out appends .a/.b). The oracle needs no hooks; yield injection at the hook points perturbs schedules.',
+    technique='TLC model checking (safety + liveness) of the pipeline protocol + fault-enumeration trace validation on real Router/GoChannel pipelines'),
 }
